@@ -633,7 +633,7 @@ def gen_outside_path(rs, root: str) -> str:
     if choice == 2 and root.startswith("/"):
         return rel  # relative path vs. absolute root
     parent = root.rsplit("/", 1)[0]
-    if parent and parent != root:
+    if parent and parent != root and rel.split("/", 1)[0] != root.rsplit("/", 1)[-1]:
         return join_path(parent, rel)  # in the parent, not in the root
     return join_path("/elsewhere", rel)
 
